@@ -182,37 +182,43 @@ Proof.
   destruct (unquote o) as [s'|]; [|discriminate Hq]. apply list_eqb_Z_eq in Hq. subst. auto.
 Qed.
 
-(* 1804: a VOk verdict on finite bits means every text is a JSON number lexeme whose exact decimal value rounds (dec2f64) to the input bits *)
-Lemma read_text_sound : forall memo o b,
-  (forall b', snd memo = Some b' -> num_okb (fst memo) = true /\ lex2f64 (fst memo) = Some b') ->
-  read_text memo o = Some b -> num_okb o = true /\ lex2f64 o = Some b.
+(* 1804: a VOk verdict on finite bits means: every text is a JSON number lexeme whose exact decimal value d satisfies the SPECIFICATION of
+   correct rounding to the input bits (f64_rounds_to d bits) and is mapped to them by the algorithm (dec2f64 d = bits) *)
+Definition text_denotes (bits : Z) (o : list Z) : Prop :=
+  exists d, lex_decimal o = Some d /\ dec2f64 d = bits /\ f64_rounds_to d bits = true.
+
+Definition memo_ok (bits : Z) (memo : list Z * option (Z * bool)) : Prop :=
+  forall b' ok, snd memo = Some (b', ok) ->
+  exists d, lex_decimal (fst memo) = Some d /\ dec2f64 d = b' /\ f64_rounds_to d bits = ok.
+
+Lemma read_text_sound : forall bits memo o, memo_ok bits memo -> memo_ok bits (o, read_text bits memo o).
 Proof.
-  intros [mo mr] o b Hm H. unfold read_text in H. cbn [fst snd] in *.
+  intros bits [mo mr] o Hm b' ok H. unfold read_text in H. cbn [fst snd] in *.
   destruct (bytes_eqb o mo) eqn:E.
   - apply list_eqb_Z_eq in E. subst o. apply Hm. exact H.
-  - destruct (num_okb o); [auto | discriminate H].
+  - destruct (lex_decimal o) as [d|]; [|discriminate H]. injection H as <- <-. exists d. auto.
 Qed.
 
 Lemma judge_texts_sound : forall bits l memo,
-  (forall x, In x l -> fst x <> 0) ->
-  (forall b', snd memo = Some b' -> num_okb (fst memo) = true /\ lex2f64 (fst memo) = Some b') ->
+  (forall x, In x l -> fst x <> 0) -> memo_ok bits memo ->
   judge_texts bits memo l = 0 ->
-  forall tag e o k b, In (tag, (e, o, k, b)) l -> e = 0 /\ num_okb o = true /\ lex2f64 o = Some bits.
+  forall tag e o k b, In (tag, (e, o, k, b)) l -> e = 0 /\ text_denotes bits o.
 Proof.
   intros bits l. induction l as [|[tag0 r] l IH]; intros memo Htag Hm H tag e o k b Hin; [destruct Hin|].
   cbn [judge_texts] in H.
-  set (o0 := snd (fst (fst r))) in *. set (rd := read_text memo o0) in *.
+  set (o0 := snd (fst (fst r))) in *. set (rd := read_text bits memo o0) in *.
+  pose proof (read_text_sound bits memo o0 Hm) as Hrd. fold rd in Hrd.
   destruct (judge_text bits r rd =? 0) eqn:Ej.
   - apply Z.eqb_eq in Ej.
-    assert (Hrd : forall b', rd = Some b' -> num_okb o0 = true /\ lex2f64 o0 = Some b').
-    { intros b' Hb. eapply read_text_sound; eassumption. }
     destruct Hin as [Heq|Hin].
     + inversion Heq; subst tag0 r. cbn in o0. subst o0. unfold judge_text in Ej.
-      destruct rd as [b'|] eqn:Erd; [|discriminate Ej].
+      destruct rd as [[b' ok]|] eqn:Erd; [|discriminate Ej].
       destruct ((k =? 1) && (b' =? b)); cbn [negb] in Ej; [|discriminate Ej].
-      destruct ((e =? 0) && (b' =? bits)) eqn:E2; [|discriminate Ej].
-      apply andb_true_iff in E2. destruct E2 as [He Hb]. apply Z.eqb_eq in He. apply Z.eqb_eq in Hb. subst b'.
-      destruct (Hrd bits eq_refl). auto.
+      destruct (Bool.eqb ok (b' =? bits)); cbn [negb] in Ej; [|discriminate Ej].
+      destruct ((e =? 0) && (b' =? bits) && ok) eqn:E2; [|discriminate Ej].
+      apply andb_true_iff in E2. destruct E2 as [E2 Hok]. apply andb_true_iff in E2. destruct E2 as [He Hb].
+      apply Z.eqb_eq in He. apply Z.eqb_eq in Hb. subst b' ok.
+      destruct (Hrd bits true eq_refl) as (d & Hd & Hb & Hs). split; [exact He|]. exists d. auto.
     + apply (IH (o0, rd)) with (tag := tag) (k := k) (b := b); [|exact Hrd|exact H|exact Hin]. intros x Hx. apply Htag. right. exact Hx.
   - exfalso. destruct (judge_text bits r rd =? 2); [discriminate H|].
     apply (Htag (tag0, r)); [left; reflexivity | exact H].
@@ -222,7 +228,7 @@ Lemma check_1804_sound : forall bits mask o0 e0 k0 b0 o1 e1 k1 b1 o2 e2 k2 b2 op
   check_1804 [FZ bits; FZ mask; FB o0; FZ e0; FZ k0; FZ b0; FB o1; FZ e1; FZ k1; FZ b1; FB o2; FZ e2; FZ k2; FZ b2; FB op; FZ ep; FZ kp; FZ bp] = VOk ->
   f64_is_finite bits = true ->
   forall e o k b, In (e, o, k, b) ((ep, op, kp, bp) :: sel mask [(e0, o0, k0, b0); (e1, o1, k1, b1); (e2, o2, k2, b2)]) ->
-  e = 0 /\ num_okb o = true /\ lex2f64 o = Some bits.
+  e = 0 /\ text_denotes bits o.
 Proof.
   intros bits mask o0 e0 k0 b0 o1 e1 k1 b1 o2 e2 k2 b2 op ep kp bp H Hf e o k b Hin.
   unfold check_1804 in H. rewrite Hf in H. cbn [negb] in H.
@@ -239,7 +245,7 @@ Proof.
     + intros x Hx. subst l. apply in_app_or in Hx. destruct Hx as [Hx|[Hx|[]]].
       * apply in_map_iff in Hx. destruct Hx as (r & <- & _). cbn. lia.
       * subst x. cbn. lia.
-    + cbn. intros b' Hb. discriminate Hb.
+    + intros b' ok Hb. discriminate Hb.
   - destruct (judge_texts bits ([], None) l =? 2); [discriminate H|].
     destruct (judge_texts bits ([], None) l =? 1); discriminate H.
 Qed.
